@@ -745,10 +745,31 @@ func factoryCases(mc *ssa.MakeClosure) []cmpCase {
 	}
 	var src ssa.Value = bound
 	if al, ok := bound.(*ssa.Alloc); ok {
+		var stores []*ssa.Store
 		for _, ref := range *al.Referrers() {
 			if st, ok := ref.(*ssa.Store); ok && st.Addr == ssa.Value(al) {
 				src = st.Val
+				stores = append(stores, st)
 			}
+		}
+		// a comparator variable assigned a function literal in each arm of a switch over the read order
+		if len(stores) > 1 {
+			swappedV := false
+			if _, i0 := elemOf(fwd.Call.Args[0]); i0 == ssa.Value(c.Params[1]) {
+				swappedV = true
+			}
+			var out []cmpCase
+			for _, st := range stores {
+				if isNilConst(st.Val) {
+					continue
+				}
+				f := closureOf(st.Val)
+				if f == nil {
+					return nil
+				}
+				out = append(out, cmpCase{order: orderConstOf(st), fn: f, swapped: swappedV})
+			}
+			return out
 		}
 	}
 	// orientation of the forwarding call: less(x[i], x[j]) or less(x[j], x[i])
